@@ -357,7 +357,7 @@ fn check_extra_in(local: &[u8], central: &[u8], variant: u8, large: bool, st: &m
         if !prelude.starts_with("append:") {
             let (res2, bytes2) = with_vectored_writes(|| exec(&calls, &[]));
             st.evals += 1;
-            if res2 != res || bytes2 != bytes {
+            if res2 != res || !same_archive_modulo_compression(&bytes2, &bytes) {
                 ok = false;
                 st.viol(format!("extra/write_vectored-changes-archive/{vname}"), format!("{what} ({vname}, large {large}): with the bytes handed over through write_vectored the {} (local {}, central {})", if res2 != res { "call results differ" } else { "archive bytes differ" }, show_x(&want_local), show_x(&want_central)), case(), order);
             }
